@@ -159,6 +159,7 @@ func workerLoop() {
 			}
 		}
 		if err != nil {
+			removeSnap()
 			return
 		}
 	}
@@ -179,7 +180,7 @@ var theWorker *worker
 
 func startWorker() *worker {
 	cmd := exec.Command(os.Args[0])
-	cmd.Env = append(os.Environ(), "C12_WORKER=1", "GOTRACEBACK=single", "GOMEMLIMIT=3GiB")
+	cmd.Env = append(os.Environ(), "C12_WORKER=1", "GOTRACEBACK=single", "GOMEMLIMIT=3GiB", fmt.Sprintf("C12_SNAP=/verif/build/tmp/c12-snap-%d", os.Getpid()))
 	in, _ := cmd.StdinPipe()
 	outp, _ := cmd.StdoutPipe()
 	errp, _ := cmd.StderrPipe()
@@ -211,6 +212,7 @@ func (w *worker) kill() {
 	w.in.Close()
 	w.cmd.Process.Kill()
 	w.cmd.Wait()
+	os.RemoveAll(fmt.Sprintf("/verif/build/tmp/c12-%d", w.cmd.Process.Pid)) // a killed / crashed worker cannot remove its ledger directory
 }
 
 // stderr of the current line only
@@ -290,7 +292,7 @@ func fatalSite(tb string) (what, site, nt string) {
 	return what, site, nt
 }
 
-const workerTimeout = 12 * time.Second
+const workerTimeout = 45 * time.Second
 
 func lineKind(line string) string {
 	f := strings.SplitN(line, " ", 3)
@@ -378,6 +380,6 @@ func main() {
 		Corpus:  corpus(),
 		N:       map[string]int{"quick": 6000, "thorough": 120000},
 		Isolate: true,
-		Timeout: 40 * time.Second,
+		Timeout: 100 * time.Second,
 	})
 }
